@@ -384,6 +384,67 @@ def run_site(c):
         res['calls'] = calls
         res['file_written'] = len(written)
         res['mutated'] = snapshot(comp) != before
+    elif c['kind'] == 'nrt_route':
+        # the non-real-time route: the far end of the interface is the score of this life.  A fresh score, the
+        # real NRT interface, the address's own methods; what is handed over is logged, then the finished score
+        # is read back (raw form, split here at its int32 size prefixes, and list form).
+        import hashlib
+        nrt = main._osc_interface
+        if not isinstance(nrt, osci.OscNrtInterface):
+            return {'skipped': 'no NRT interface in this process (%s)' % INIT_ERROR}
+        nrt._osc_score = osci.OscScore()
+        score = nrt._osc_score
+        addr = nad.NetAddr('127.0.0.1', 57232)
+        handed = []
+        real_msg, real_bndl = addr.send_msg, addr.send_bundle
+
+        def elem_sha(e):
+            st = main.current_tt._seconds
+            d = (nrt._build_msg(st, list(e)) if isinstance(e[0], str) else nrt._build_bundle(st, list(e))).dgram
+            return hashlib.sha1(d).hexdigest()[:16]
+
+        def log_msg(*a):
+            handed.append({'method': 'send_msg', 'n': 1, 'elems': [elem_sha(a)]})
+            real_msg(*a)
+
+        def log_bndl(t, *e):
+            handed.append({'method': 'send_bundle', 'time': enc_tree(t), 'n': len(e), 'elems': [elem_sha(x) for x in e]})
+            real_bndl(t, *e)
+        addr.send_msg, addr.send_bundle = log_msg, log_bndl
+        try:
+            for op in c['ops']:
+                if op[0] == 'clumped':
+                    addr.send_clumped_bundles(dec(op[1]), *dec(op[2]))
+                elif op[0] == 'bundle':
+                    addr.send_bundle(dec(op[1]), *dec(op[2]))
+                elif op[0] == 'msg':
+                    addr.send_msg(*dec(op[1]))
+                elif op[0] == 'ctx':
+                    with nad.BundleNetAddr(addr) as b:
+                        for e in dec(op[1]):
+                            b.send_msg(*e)
+            score.finish()
+            raw = bytes(score.raw)
+            entries, i = [], 0
+            while i < len(raw):
+                n = int.from_bytes(raw[i:i + 4], 'big')
+                b = raw[i + 4:i + 4 + n]
+                i += 4 + n
+                tt = int.from_bytes(b[8:16], 'big')
+                els, j = [], 16
+                while j < len(b):
+                    m = int.from_bytes(b[j:j + 4], 'big', signed=True)
+                    els.append(hashlib.sha1(b[j + 4:j + 4 + m]).hexdigest()[:16])
+                    j += 4 + m
+                entries.append([str(tt), els, b[:8] == b'#bundle\x00' and j == len(b)])
+            res['entries'] = entries
+            res['list_entries'] = [len(x) - 1 for x in score.list]
+            res['marker_shas'] = [elem_sha(['/g_new', 1, 0, 0]), elem_sha(['/c_set', 0, 0])]
+        except BaseException as e:
+            res['error'] = [err_code(e), type(e).__name__, str(e)[:200]]
+        finally:
+            nrt._osc_score = osci.OscScore()
+        res['handed'] = handed
     elif c['kind'] == 'sendmsg':
         addr, calls = make_addr(True)
         msg = dec(c['v'])
@@ -471,7 +532,7 @@ def main_():
         try:
             if c['kind'] == 'parse':
                 out.append({'parse': parse_packet(bytes.fromhex(c['dgram']))})
-            elif c['kind'] in ('dsend', 'clumped', 'sync', 'sendmsg'):
+            elif c['kind'] in ('dsend', 'clumped', 'sync', 'sendmsg', 'nrt_route'):
                 out.append(run_site(c))
             elif c['kind'] == 'strpad4':
                 out.append({'vals': [int(nad.NetAddr._strpad4(n)) for n in c['n']],
